@@ -64,7 +64,7 @@ def litMirror (isDigit : Char → Bool) (d : Dialect) (k : LitKind) (v : Str) : 
   | .int | .float => some (numOf v)
   | .bool =>
       let tv := lowerAscii v == S "true"
-      if d = .sqlite then some (.num (if tv then ['1'] else ['0'])) else some (.kw (upperAscii v))
+      if d = .sqlite then some (.num (if tv then ['1'] else ['0'])) else some (.kw (if tv then S "TRUE" else S "FALSE"))
   | .str => some (.str v)
   | .geo => none
   | .date => if d = .sqlite then some (.call (S "DATE") (.cons (.str v) .nil)) else some (.typed (S "DATE") v)
